@@ -5,7 +5,15 @@
   operator and N; what the branch does; what the final `else` does.
 * `Association._serve_request`: the shape of the `try` body around the service
   class call — where `self.dimse.cancel_req = {}` stands relative to `.SCP(...)`
-  — and whether any `except` handler clears the store.
+  — and whether any `except` handler clears the store.  A clearing statement
+  that is the whole body of an `if` without `else` is reported as `clear-if`,
+  with its test (a plain name is replaced by the expression the function
+  assigns to it, when there is exactly one such assignment) in `clearGuards`.
+  The two writes of `self._is_paused` around the call are reported the same way
+  (`pause` / `pause-if`, tests in `pauseGuards`).
+* `receive_primitive` again: the classes `X` of `isinstance(d_primitive, X)` in
+  the test of the branch that starts a thread on `_serve_request` — the
+  requests that are served while another request may be in progress.
 """
 import ast
 import os
@@ -22,6 +30,7 @@ def extract():
     dtree = ast.parse(open(os.path.join(REPO, "pynetdicom", "dimse.py")).read())
     rp = _method(dtree, "DIMSEServiceProvider", "receive_primitive")
     guard, cmp_op, bound, branch, final_else = "", "", None, [], []
+    side = []
     for node in ast.walk(rp):
         if isinstance(node, ast.If) and "C_CANCEL" in ast.unparse(node.test):
             guard = ast.unparse(node.test)
@@ -38,6 +47,16 @@ def extract():
                         cmp_op = type(v.ops[0]).__name__
                         bound = v.comparators[0].value
             branch = [ast.unparse(s) for s in node.body]
+            # branches of the same chain that start a thread on _serve_request
+            c2 = node
+            while len(c2.orelse) == 1 and isinstance(c2.orelse[0], ast.If):
+                c2 = c2.orelse[0]
+                body_src = "".join(ast.unparse(s) for s in c2.body)
+                if "Thread(" in body_src and "_serve_request" in body_src:
+                    for call in ast.walk(c2.test):
+                        if (isinstance(call, ast.Call) and isinstance(call.func, ast.Name) and call.func.id == "isinstance"
+                                and len(call.args) == 2):
+                            side.append(ast.unparse(call.args[1]))
             cur = node
             while len(cur.orelse) == 1 and isinstance(cur.orelse[0], ast.If):
                 cur = cur.orelse[0]
@@ -46,13 +65,33 @@ def extract():
 
     atree = ast.parse(open(os.path.join(REPO, "pynetdicom", "association.py")).read())
     sr = _method(atree, "Association", "_serve_request")
-    shape, handlers_clear = [], False
+    shape, handlers_clear, guards, pguards = [], False, [], []
+    assigned = {}
+    for node in ast.walk(sr):
+        if isinstance(node, ast.Assign) and len(node.targets) == 1 and isinstance(node.targets[0], ast.Name):
+            assigned.setdefault(node.targets[0].id, []).append(ast.unparse(node.value))
     for node in ast.walk(sr):
         if isinstance(node, ast.Try) and any(".SCP(" in ast.unparse(s) for s in node.body):
             for s in node.body:
                 u = ast.unparse(s)
                 if u == "self.dimse.cancel_req = {}":
                     shape.append("clear")
+                elif (isinstance(s, ast.If) and not s.orelse and len(s.body) == 1
+                      and ast.unparse(s.body[0]) == "self.dimse.cancel_req = {}"):
+                    shape.append("clear-if")
+                    t = ast.unparse(s.test)
+                    if isinstance(s.test, ast.Name) and len(assigned.get(s.test.id, [])) == 1:
+                        t = assigned[s.test.id][0]
+                    guards.append(t)
+                elif u in ("self._is_paused = True", "self._is_paused = False"):
+                    shape.append("pause")
+                elif (isinstance(s, ast.If) and not s.orelse and len(s.body) == 1
+                      and ast.unparse(s.body[0]) in ("self._is_paused = True", "self._is_paused = False")):
+                    shape.append("pause-if")
+                    t = ast.unparse(s.test)
+                    if isinstance(s.test, ast.Name) and len(assigned.get(s.test.id, [])) == 1:
+                        t = assigned[s.test.id][0]
+                    pguards.append(t)
                 elif ".SCP(" in u:
                     shape.append("scp")
                 elif "cancel_req" in u:
@@ -67,7 +106,7 @@ def extract():
     # any other statement of _serve_request that touches the store
     n_touch = sum(1 for n in ast.walk(sr) if isinstance(n, ast.Attribute) and n.attr == "cancel_req")
     return dict(guard=guard, cmp=cmp_op, bound=bound, branch=branch, final_else=final_else, shape=shape,
-                handlers_clear=handlers_clear, n_touch=n_touch)
+                handlers_clear=handlers_clear, n_touch=n_touch, guards=guards, side=side, pguards=pguards)
 
 
 def generate():
@@ -86,6 +125,12 @@ def generate():
         f"def finalElse : List String := {sl(x['final_else'])}",
         "/-- statements of the `try` body of `_serve_request` around the service class call -/",
         f"def serveTry : List String := {sl(x['shape'])}",
+        "/-- tests of the `clear-if` statements, in order -/",
+        f"def clearGuards : List String := {sl(x['guards'])}",
+        "/-- tests of the `pause-if` statements (writes of `_is_paused` around the call), in order -/",
+        f"def pauseGuards : List String := {sl(x['pguards'])}",
+        "/-- classes of the requests `receive_primitive` serves in a thread of their own -/",
+        f"def sideThread : List String := {sl(x['side'])}",
         "/-- does an except/else/finally clause of that `try` mention `cancel_req` -/",
         f"def handlersTouchStore : Bool := {'true' if x['handlers_clear'] else 'false'}",
         "/-- number of occurrences of `.cancel_req` in `_serve_request` -/",
